@@ -51,6 +51,8 @@ pub struct RespSpec {
     pub split_after: usize,
     /// respond before the request body has been read completely (only when split)
     pub early: bool,
+    /// whole-stream pattern only: the response is sent (and finished) before the request body is read
+    pub respond_first: bool,
 }
 #[derive(Clone, Debug)]
 pub struct Exchange {
@@ -175,6 +177,7 @@ pub fn gen_exchange(i: usize, allow_empty_pieces: bool) -> Exchange {
         split,
         split_after: if split && chance(1, 2) { 1 + draw_usize(3) } else { 0 },
         early: split && chance(1, 2),
+        respond_first: !split && chance(1, 4),
     };
     Exchange { req, resp }
 }
@@ -489,6 +492,12 @@ pub fn spawn_server(ex: &mut Exec, net: &Shared, rec: &Rc<RefCell<Rec>>, setup: 
                             if let Some(w) = w {
                                 w.wake()
                             }
+                        } else if spec.respond_first {
+                            obs::count("probe.response_sent_before_the_request_body_was_read");
+                            tryrec!(rec, "server.send_response", s.send_response(resp).await);
+                            let _ = send_body!(rec, "server", s, spec.body, spec.trailers);
+                            recv_rest!(rec, "server", s, got);
+                            rec.borrow_mut().got_req[idx] = Some(got);
                         } else {
                             recv_rest!(rec, "server", s, got);
                             rec.borrow_mut().got_req[idx] = Some(got);
